@@ -177,6 +177,11 @@ def run_case(case, ctx):
             judged = False
             ctx.count("float_ill_conditioned_unjudged")
     feat = f"{rat}:{'explicit' if explicit else 'default'}:{kind}"
+    if not o.ok and not exact and not judged:
+        # a collocation matrix of full exact rank but numerically singular (condition number >= 1e5, e.g. default nodes
+        # on a discontinuous basis): a float solver may refuse it
+        ctx.count("float_ill_conditioned_refused")
+        return
     if not ctx.check(o.ok, f"fitpoints:raises:{o.exc_name}:{feat}", f"fit_points raised {o.brief()}"):
         return
     got = cv.state_rc(ctx, curve, "fit_points")
